@@ -916,7 +916,10 @@ class VmapBatchHandler:
             )
             result = create_sample_primitive(new_config)(*args, **kwargs)
         else:
-            result = create_sample_primitive(new_config)(*vector_args)
+            # constants the sampler closes over were staged in front of the parameters
+            result = create_sample_primitive(new_config)(
+                *vector_args[params["num_consts"] :]
+            )
 
         # Return with appropriate output axes: batched parameters put the lane
         # axis after the site's own sample_shape, an added sample dimension first
